@@ -42,13 +42,97 @@ type embedRec struct {
 }
 
 type nativeLog struct {
-	calls [][2][]int64 // per invocation: fixed args, variadic tail
+	calls [][2][]string // per invocation: descriptors of the fixed args and of the variadic tail
 }
 
-func valsToInts(vs []goat.Value) []int64 {
-	out := make([]int64, len(vs))
+// argument value profiles: the abstract argument Arg(k) = 100+k of Embed.tla is realised as
+//
+//	profile 0: the int 100+k;  profile 1: nil;  profile 2: a kind chosen by position
+var c19Profile = 0
+
+func argKind(k int) string {
+	switch c19Profile {
+	case 0:
+		return "int"
+	case 1:
+		return "nil"
+	}
+	return []string{"nil", "string", "int", "float", "slice", "int"}[k%6]
+}
+
+func argDesc(k int64) string {
+	id := int(k)
+	switch argKind(id - 100) {
+	case "nil":
+		return "nil"
+	case "string":
+		return fmt.Sprintf("string:s%d", id)
+	case "float":
+		return fmt.Sprintf("float64:%d.5", id)
+	case "slice":
+		return fmt.Sprintf("[]:[%d]", id)
+	}
+	return fmt.Sprintf("int32:%d", id)
+}
+
+func argLit(id int) string {
+	switch argKind(id - 100) {
+	case "nil":
+		return "nil"
+	case "string":
+		return fmt.Sprintf("\"s%d\"", id)
+	case "float":
+		return fmt.Sprintf("%d.5", id)
+	case "slice":
+		return fmt.Sprintf("[]int{%d}", id)
+	}
+	return fmt.Sprint(id)
+}
+
+func argValue(id int) goat.Value {
+	switch argKind(id - 100) {
+	case "nil":
+		return goat.Nil()
+	case "string":
+		return goat.String(fmt.Sprintf("s%d", id))
+	case "float":
+		return goat.Float64(float64(id) + 0.5)
+	case "slice":
+		return goat.NewSlice(goat.TypeInt32, []goat.Value{goat.Int(id)})
+	}
+	return goat.Int(id)
+}
+
+func descValue(v goat.Value) string {
+	switch {
+	case v.Type() == goat.TypeNil:
+		return "nil"
+	case v.Type() == goat.TypeString:
+		return "string:" + v.String()
+	case v.Type() == goat.TypeFloat64:
+		return "float64:" + v.String()
+	case v.Type() == goat.TypeSlice:
+		return "[]:" + v.String()
+	case v.Type() == goat.TypeInt32 || v.Type() == goat.Type(1):
+		// an integer constant written at the call site reaches a native untyped (Type 1); the property
+		// speaks about the argument VALUES, so both spellings count as the integer
+		return "int32:" + v.String()
+	}
+	return fmt.Sprintf("type%d:%s", v.Type(), v.String())
+}
+
+func valsToDescs(vs []goat.Value) []string {
+	out := make([]string, len(vs))
 	for i, v := range vs {
-		out[i] = int64(v.Int())
+		out[i] = descValue(v)
+	}
+	return out
+}
+
+func idsToDescs(ids []int64) []string {
+	out := make([]string, len(ids))
+	for i, k := range ids {
+		out[i] = argDesc(k)
 	}
 	return out
 }
@@ -62,7 +146,7 @@ func mkNative(e embedRec, lg *nativeLog) goat.Value {
 		return rs
 	}
 	rec := func(fixed, tail []goat.Value) {
-		lg.calls = append(lg.calls, [2][]int64{valsToInts(fixed), valsToInts(tail)})
+		lg.calls = append(lg.calls, [2][]string{valsToDescs(fixed), valsToDescs(tail)})
 		if e.Raise {
 			panic("boom from native")
 		}
@@ -91,16 +175,16 @@ func argList(e embedRec) string {
 	var a []string
 	if e.Spread {
 		for i := 1; i <= e.Argc; i++ {
-			a = append(a, fmt.Sprint(100+i))
+			a = append(a, argLit(100+i))
 		}
 		var t []string
 		for i := e.Argc + 1; i <= e.Nargs; i++ {
-			t = append(t, fmt.Sprint(100+i))
+			t = append(t, argLit(100+i))
 		}
-		a = append(a, "[]int{"+strings.Join(t, ", ")+"}...")
+		a = append(a, "[]any{"+strings.Join(t, ", ")+"}...")
 	} else {
 		for i := 1; i <= e.Nargs; i++ {
-			a = append(a, fmt.Sprint(100+i))
+			a = append(a, argLit(100+i))
 		}
 	}
 	return strings.Join(a, ", ")
@@ -134,7 +218,9 @@ func lhs(n int) string {
 
 var c19Contexts = []c19Ctx{
 	{"statement", func(e embedRec) bool { return e.Req == 0 && e.Below == 0 },
-		func(e embedRec) (string, int) { return fmt.Sprintf("import \"host\"\nhost.N(%s)\nprintln(\"RES\")", argList(e)), 1 },
+		func(e embedRec) (string, int) {
+			return fmt.Sprintf("import \"host\"\nhost.N(%s)\nprintln(\"RES\")", argList(e)), 1
+		},
 		func(e embedRec) string { return "RES" }},
 	{"assign", func(e embedRec) bool { return e.Req >= 1 && e.Below == 0 },
 		func(e embedRec) (string, int) {
@@ -210,7 +296,7 @@ func checkC19(c *Ctx) {
 		if e.Nargs+e.Prod > 0 {
 			c.DistinctCount++
 		}
-		key := fmt.Sprintf("%s|%+v", ctxName, e)
+		key := fmt.Sprintf("%s|%d|%+v", ctxName, c19Profile, e)
 		fail := func(what string) {
 			c.violate(hashKey(key), fmt.Sprintf("native call %s form=%s argc=%d nargs=%d spread=%v produced=%d requested=%d below=%d raise=%v: %s", ctxName, e.Form, e.Argc, e.Nargs, e.Spread, e.Prod, e.Req, e.Below, e.Raise, what),
 				map[string]any{"case": e, "context": ctxName, "stdout": out, "error": fmt.Sprint(err), "native_saw": lg.calls})
@@ -225,8 +311,8 @@ func checkC19(c *Ctx) {
 			return
 		}
 		for _, cl := range lg.calls {
-			if !eqInts(cl[0], e.Fixed) || !eqInts(cl[1], e.Tail) {
-				fail(fmt.Sprintf("native saw fixed=%v tail=%v, specification: fixed=%v tail=%v", cl[0], cl[1], e.Fixed, e.Tail))
+			if !eqStrs(cl[0], idsToDescs(e.Fixed)) || !eqStrs(cl[1], idsToDescs(e.Tail)) {
+				fail(fmt.Sprintf("native saw fixed=%v tail=%v, specification: fixed=%v tail=%v (profile %d)", cl[0], cl[1], idsToDescs(e.Fixed), idsToDescs(e.Tail), c19Profile))
 				return
 			}
 		}
@@ -252,75 +338,84 @@ func checkC19(c *Ctx) {
 	}
 
 	sampled := 0
-	for _, e := range recs {
+	for pi, e := range recs {
 		e := e
-		for _, cx := range c19Contexts {
-			if !cx.applicable(e) {
-				continue
-			}
-			src, calls := cx.script(e)
-			want := ""
-			if e.Outcome == "ok" {
-				want = cx.expect(e)
-			}
-			if sampled < 3 && e.Nargs >= 2 && e.Prod >= 1 {
-				c.sample(map[string]any{"case": e, "context": cx.name, "script": src})
-				sampled++
-			}
-			replay(e, cx.name, func(lg *nativeLog) (out string, err error, pan any) {
-				var buf bytes.Buffer
-				vm := goat.New(goat.WithStdout(&buf))
-				vm.Set("host.N", mkNative(e, lg))
-				vm.Set("host.Pair", pair)
-				goat.VerifSetBudget(100000)
-				defer goat.VerifSetBudget(-1)
-				defer func() {
-					if r := recover(); r != nil {
-						pan = r
-					}
-					out = buf.String()
-				}()
-				_, err = vm.Eval(fstest.MapFS{}, "c19.go", src)
-				return
-			}, want, calls)
+		// argument kinds: every case with ints; nil-only and mixed kinds on every case with arguments
+		profiles := []int{0}
+		if e.Nargs > 0 && (!c.quick() || pi%2 == 0 || e.Form == "NVtoM") {
+			profiles = []int{0, 1, 2}
 		}
-		if e.Below == 0 && !e.Spread {
-			// host side: Func(native, req, args...) and Call of a registered name
-			for _, via := range []string{"Func", "Call"} {
-				via := via
-				want := ""
-				for _, v := range e.Stack {
-					want += " " + fmt.Sprint(v)
+		for _, prof := range profiles {
+			c19Profile = prof
+			for _, cx := range c19Contexts {
+				if !cx.applicable(e) {
+					continue
 				}
-				replay(e, "host-"+via, func(lg *nativeLog) (out string, err error, pan any) {
-					vm := goat.New(goat.WithStdout(&bytes.Buffer{}))
-					n := mkNative(e, lg)
-					vm.Set("host.N", n)
-					args := make([]goat.Value, e.Nargs)
-					for i := range args {
-						args[i] = goat.Int(100 + i + 1)
-					}
+				src, calls := cx.script(e)
+				want := ""
+				if e.Outcome == "ok" {
+					want = cx.expect(e)
+				}
+				if sampled < 3 && e.Nargs >= 2 && e.Prod >= 1 {
+					c.sample(map[string]any{"case": e, "context": cx.name, "script": src})
+					sampled++
+				}
+				replay(e, cx.name, func(lg *nativeLog) (out string, err error, pan any) {
+					var buf bytes.Buffer
+					vm := goat.New(goat.WithStdout(&buf))
+					vm.Set("host.N", mkNative(e, lg))
+					vm.Set("host.Pair", pair)
+					goat.VerifSetBudget(100000)
+					defer goat.VerifSetBudget(-1)
 					defer func() {
 						if r := recover(); r != nil {
 							pan = r
 						}
+						out = buf.String()
 					}()
-					var rets []goat.Value
-					if via == "Func" {
-						rets, err = vm.Func(n, e.Req, args...)
-					} else {
-						rets, err = vm.Call("host.N", e.Req, args...)
-					}
-					if err == nil {
-						for _, v := range rets {
-							out += " " + fmt.Sprint(v.Int())
-						}
-					}
+					_, err = vm.Eval(fstest.MapFS{}, "c19.go", src)
 					return
-				}, strings.TrimSpace(want), 1)
+				}, want, calls)
+			}
+			if e.Below == 0 && !e.Spread {
+				// host side: Func(native, req, args...) and Call of a registered name
+				for _, via := range []string{"Func", "Call"} {
+					via := via
+					want := ""
+					for _, v := range e.Stack {
+						want += " " + fmt.Sprint(v)
+					}
+					replay(e, "host-"+via, func(lg *nativeLog) (out string, err error, pan any) {
+						vm := goat.New(goat.WithStdout(&bytes.Buffer{}))
+						n := mkNative(e, lg)
+						vm.Set("host.N", n)
+						args := make([]goat.Value, e.Nargs)
+						for i := range args {
+							args[i] = argValue(100 + i + 1)
+						}
+						defer func() {
+							if r := recover(); r != nil {
+								pan = r
+							}
+						}()
+						var rets []goat.Value
+						if via == "Func" {
+							rets, err = vm.Func(n, e.Req, args...)
+						} else {
+							rets, err = vm.Call("host.N", e.Req, args...)
+						}
+						if err == nil {
+							for _, v := range rets {
+								out += " " + fmt.Sprint(v.Int())
+							}
+						}
+						return
+					}, strings.TrimSpace(want), 1)
+				}
 			}
 		}
 	}
+	c19Profile = 0
 	c.TracesVsImpl = c.Evaluations
 
 	// nested re-entry: native A re-enters the VM (Func) -> script -> native B raises; the error must
@@ -344,6 +439,18 @@ func checkC19(c *Ctx) {
 	}
 
 	c19RoundTrips(c)
+}
+
+func eqStrs(a, b []string) bool {
+	if len(a) != len(b) {
+		return false
+	}
+	for i := range a {
+		if a[i] != b[i] {
+			return false
+		}
+	}
+	return true
 }
 
 func eqInts(a, b []int64) bool {
